@@ -22,6 +22,7 @@ import (
 //	swap-operands : `a == b` / `a != b` comparisons are mirrored (b == a), `a < b` becomes `b > a`, etc.
 func refactorTree(dir, kind string) error {
 	normaliseCmp = false
+	keepLogging = true
 	p, err := Load(dir, true) // from source: nothing of the scratch copy is compiled into the build cache
 	if err != nil {
 		return err
@@ -176,13 +177,15 @@ func refactorTree(dir, kind string) error {
 					return true
 				})
 			case "add-calls":
-				// a call of a package-level no-op function is inserted before every statement of every block
-				// (what a maintainer does when adding tracing); the function is added to each package below
+				nBefore := n
+				// a log.Printf call is inserted before every statement of every block (what a maintainer does when adding tracing)
 				ins := func(list []ast.Stmt) []ast.Stmt {
 					var out []ast.Stmt
 					for _, st := range list {
 						if _, lab := st.(*ast.LabeledStmt); !lab {
-							out = append(out, &ast.ExprStmt{X: &ast.CallExpr{Fun: ast.NewIdent("traceZq")}})
+							out = append(out, &ast.ExprStmt{X: &ast.CallExpr{
+								Fun:  &ast.SelectorExpr{X: ast.NewIdent("logZq"), Sel: ast.NewIdent("Printf")},
+								Args: []ast.Expr{&ast.BasicLit{Kind: token.STRING, Value: `"trace"`}}}})
 							n++
 						}
 						out = append(out, st)
@@ -206,7 +209,11 @@ func refactorTree(dir, kind string) error {
 					}
 					return true
 				})
-				changed = true
+				if n > nBefore {
+					file.Decls = append([]ast.Decl{&ast.GenDecl{Tok: token.IMPORT, Specs: []ast.Spec{
+						&ast.ImportSpec{Name: ast.NewIdent("logZq"), Path: &ast.BasicLit{Kind: token.STRING, Value: `"log"`}}}}}, file.Decls...)
+					changed = true
+				}
 			case "unwrap-else":
 				// { …; if c { …; return } else { rest } }  →  { …; if c { …; return }; rest }   (the if is the last statement)
 				ast.Inspect(file, func(x ast.Node) bool {
@@ -337,22 +344,6 @@ func refactorTree(dir, kind string) error {
 				}
 			}
 			if err := os.WriteFile(path, buf.Bytes(), 0o644); err != nil {
-				return err
-			}
-		}
-	}
-	if kind == "add-calls" {
-		for _, rel := range sdkPkgs {
-			pk := p.Pkg(rel)
-			if pk == nil || len(pk.CompiledGoFiles) == 0 {
-				continue
-			}
-			pdir := pk.CompiledGoFiles[0][:strings.LastIndex(pk.CompiledGoFiles[0], "/")]
-			if !strings.HasPrefix(pdir, dir) {
-				continue
-			}
-			src := fmt.Sprintf("package %s\n\nvar traceSinkZq func()\n\nfunc traceZq() {\n\tdefer func() {}()\n\tif traceSinkZq != nil {\n\t\ttraceSinkZq()\n\t}\n}\n", pk.Types.Name())
-			if err := os.WriteFile(pdir+"/zz_trace_zq.go", []byte(src), 0o644); err != nil {
 				return err
 			}
 		}
